@@ -145,7 +145,10 @@ impl<TCompilationProfile: CompilationProfile> IsographDatabase<TCompilationProfi
             .get_iso_literal_map_mut()
             .tracked()
             .0
-            .extract_if(|k, _| k.to_string().starts_with(relative_path))
+            .extract_if(|k, _| {
+                // Compare whole path components: src/a is not a prefix of src/ab/y.ts
+                std::path::Path::new(&k.to_string()).starts_with(relative_path)
+            })
             .map(|(_, v)| v)
             .collect::<Vec<_>>();
 
